@@ -470,6 +470,10 @@ def gen_program(ctx, da):
         except REFUSALS:
             ctx.notes["construction_refusals"] = ctx.notes.get("construction_refusals", 0) + 1
             continue
+        except Exception as e:  # noqa: BLE001 - a step that cannot be constructed at all is C01's business, not a transfer estimate
+            k = "construction_errors." + type(e).__name__
+            ctx.notes[k] = ctx.notes.get(k, 0) + 1
+            continue
         if b.ndim > 4 or (b.size == b.size and b.size > 5000):
             continue
         prog.append(step)
